@@ -3,6 +3,7 @@ import itertools
 
 from common import enc_str, Reader
 import c18_css
+import c18_seq
 
 MARKUP_ALPHABET = list('aA1$#.*>+^()[]{}="\'/\\-@:! ') + ['\n', 'é', '٣', ' ', '%', '²']
 OPS = {'child': 0, 'sibling': 1, 'climb': 2, 'class': 3, 'id': 4, 'close': 5, 'equal': 6}
@@ -19,6 +20,11 @@ def impl_markup(s):
         return ('err', e.pos)
     except Exception as e:  # internal error: never equal to a model result
         return ('internal', type(e).__name__)
+    return ('ok', canon_markup_tokens(toks))
+
+
+def canon_markup_tokens(toks):
+    """Canonical [(kind, start, end)] of a list of markup token objects."""
     out = []
     for t in toks:
         ty = t.type
@@ -43,7 +49,7 @@ def impl_markup(s):
         else:
             k = ('?', ty)
         out.append((k, t.start, t.end))
-    return ('ok', out)
+    return out
 
 
 def decode_markup(w):
@@ -139,12 +145,14 @@ def run(ctx):
     cases = gen_markup(ctx, ctx.tier)
     impl = [impl_markup(s) for s in cases]
     # property oracle on the implementation (search layer; runs always, cheap)
-    for s, r in zip(cases, impl):
+    reporter = c18_seq.StreamReporter(ctx, 'markup')   # re-runs the first failures alone in a fresh interpreter
+    stream = [(s, False) for s in cases]
+    for j, (s, r) in enumerate(zip(cases, impl)):
         ctx.count_eval()
         bad = tiling_oracle(s, r)
         if bad:
-            ctx.property_failure('markup:' + s, 'markup tokenize(%r): %s' % (s, bad),
-                                 {'component': 'markup', 'input': s, 'impl': repr(r), 'why': bad})
+            reporter.report(stream, j, 'markup:' + s, 'markup tokenize(%r): %s' % (s, bad),
+                            {'component': 'markup', 'input': s, 'impl': repr(r), 'why': bad})
         if r[0] == 'err':
             ctx.cover('markup:scanner-error')
             ctx.nontrivial(('m', s))
@@ -154,6 +162,7 @@ def run(ctx):
                 ctx.nontrivial(('m', s))
             for k, _, _ in r[1]:
                 ctx.cover('markup:token:' + k[0])
+    reporter.finish()
     for s, r in list(zip(cases, impl))[40:46]:
         ctx.sample({'input': s, 'impl': repr(r)[:200]})
     # correspondence model vs implementation
@@ -173,6 +182,67 @@ def run(ctx):
         ctx.cov['correspondence']['markup_tokenizer'] = {'cases': len(cases), 'disagreements': dis}
     long_digit_runs(ctx)
     c18_css.run_css(ctx)
+    call_sequences(ctx, cases)
+
+
+# -- call sequences: the property on every call of a process, results owned by the caller (see c18_seq.py) ----------
+
+def _markup_lang():
+    def tokenize(s, is_value):
+        from emmet.abbreviation.tokenizer import tokenize as tk
+        return tk(s)
+
+    def parse(x, is_value):
+        from emmet.abbreviation import parse as p
+        return p(x)
+
+    def expand(s, is_value):
+        from emmet import expand as e
+        return e(s)
+    return c18_seq.Lang('markup', tokenize, canon_markup_tokens, tiling_oracle, parse, expand)
+
+
+def _css_lang():
+    def tokenize(s, is_value):
+        from emmet.css_abbreviation.tokenizer import tokenize as tk
+        return tk(s, is_value)
+
+    def parse(x, is_value):
+        from emmet.css_abbreviation import parse as p
+        return p(x, {'value': bool(is_value)})
+
+    def expand(s, is_value):
+        from emmet import expand as e
+        cfg = {'type': 'stylesheet'}
+        if is_value:
+            cfg['context'] = {'name': 'margin'}
+        return e(s, cfg)
+    return c18_seq.Lang('css', tokenize, c18_css.canon_css_tokens, c18_css.tiling_oracle, parse, expand)
+
+
+def call_sequences(ctx, markup_cases):
+    rng = ctx.rng
+    quick = ctx.tier == 'quick'
+    # subjects: realistic abbreviations first (the systematic edit-then-again sweep uses the first few), then draws
+    # from the single-call stream (short exhaustive strings are mostly one token: draw from the random part)
+    tail = markup_cases[-(6000 if quick else 150000):]
+    msub = [(s, False) for s in c18_seq.MARKUP_SUBJECTS]
+    msub += [(rng.choice(tail), False) for _ in range(400 if quick else 4000)]
+    csub = []
+    for s in c18_seq.CSS_SUBJECTS:
+        csub.append((s, False))
+        csub.append((s, True))
+    for _ in range(400 if quick else 4000):
+        if rng.random() < 0.3:
+            s = ''.join(rng.choice(c18_css.CSS_ALPHABET) for _ in range(rng.randint(1, 20)))
+        else:
+            s = ''.join(rng.choice(c18_css.FRAGS) for _ in range(rng.randint(1, 10)))
+        csub.append((s, rng.random() < 0.5))
+    history = []
+    nm, cm = c18_seq.run_sequences(ctx, _markup_lang(), msub, 1500 if quick else 30000, 150 if quick else 3000, history)
+    nc, cc = c18_seq.run_sequences(ctx, _css_lang(), csub, 1500 if quick else 30000, 150 if quick else 3000, history)
+    ctx.cov['call_sequences'] = {'markup': nm, 'markup_calls': cm, 'css': nc, 'css_calls': cc}
+    ctx.cov['rule'] = ctx.cov.get('rule', '') + ' || ' + c18_seq.rule_text(nm, nc)
 
 
 def long_digit_runs(ctx):
@@ -205,6 +275,8 @@ def long_digit_runs(ctx):
 
 def replay(ctx, obj):
     rp = obj.get('replay', {})
+    if rp.get('component') == 'sequence':
+        return c18_seq.replay_program({'markup': _markup_lang(), 'css': _css_lang()}, rp)
     if rp.get('component') == 'css':
         return c18_css.replay_css(ctx, obj)
     s = rp.get('input')
